@@ -185,6 +185,59 @@ def _mk_class(R, n_batch):
                 ctx.eq("grad[%s][%d]" % (nm, k), _S(ctx, _el(gv[k])), _S(ctx, _d(_el(frac[key]), th, k)),
                        clause="returned gradient of the fraction == d(fraction)/d theta_k with ALL batches accumulated in numerator and denominator")
         ctx.holds("selection_restored", ctx.tf.constant(amp.decay_group.chains_idx == list(range(R))), clause="the chain selection after append_int equals the selection on entry")
+        # --- C09: errors of the fractions == sqrt(g^T V g) for the covariance attached AT THE TIME of the query (attribute re-assigned between two queries of
+        # the same object, explicit argument, tuple-unpacking protocol, diagonal sum)
+        def cov(tag):
+            a, b, c = (ctx.real("%s_%s" % (tag, x), ()).a[()] for x in "abc")
+            V = np.empty((2, 2), dtype=object)
+            V[0, 0], V[0, 1], V[1, 0], V[1, 1] = tm.mul(a, a), tm.mul(a, b), tm.mul(a, b), tm.add(tm.mul(b, b), tm.mul(c, c))   # V = L L^T
+            return V
+
+        def quad(V, gv):
+            acc = tm.ZERO
+            for x in range(2):
+                for y in range(2):
+                    acc = tm.add(acc, tm.mul(tm.mul(_el(gv[x]), V[x, y]), _el(gv[y])))
+            return acc
+
+        def check_err(tag, errs, V, grads):
+            for key, e in errs.items():
+                nm = key if isinstance(key, str) else "x".join(key)
+                e = _el(e)
+                is_root = getattr(e, "op", None) == "sqrt"
+                ctx.holds("get_frac/%s/err_is_root[%s]" % (tag, nm), ctx.tf.constant(bool(is_root)), clause="the reported error is a (non-negative) square root")
+                if is_root:
+                    ctx.eq("get_frac/%s/err2[%s]" % (tag, nm), _S(ctx, e.args[0]), _S(ctx, quad(V, grads[key])),
+                           clause="error^2 == sum_ab g_a V_ab g_b with g the gradient of THIS fraction and V the covariance in force for this query (%s)" % tag)
+
+        with contextlib.redirect_stdout(io.StringIO()):
+            frac_g, grads_all = fr.get_frac_grad(sum_diag=True)
+            V1, V2, V3 = cov("V1"), cov("V2"), cov("V3")
+            fr.error_matrix = V1
+            f1, e1 = fr.get_frac()
+            fr.error_matrix = V2
+            f2, e2 = fr.get_frac()
+            f3, e3 = fr.get_frac(error_matrix=V3)
+            f4, e4 = fr
+            sd, sd_e = fr.get_frac_diag_sum()
+        check_err("first_query", e1, V1, grads_all)
+        check_err("after_reassigning_error_matrix", e2, V2, grads_all)
+        check_err("explicit_argument", e3, V3, grads_all)
+        check_err("tuple_unpacking", e4, V2, grads_all)
+        for key in frac_g:
+            nm = key if isinstance(key, str) else "x".join(key)
+            ctx.eq("get_frac/value_same_as_get_frac_grad[%s]" % nm, _S(ctx, _el(f2[key])), _S(ctx, _el(frac_g[key])), clause="get_frac reports the fractions of get_frac_grad")
+        sd_e = _el(sd_e)
+        gsum = [tm.ZERO, tm.ZERO]
+        tot_diag = tm.ZERO
+        for i in range(R):
+            tot_diag = tm.add(tot_diag, tot_int([names[i]]))
+        dsd = [_d(tot_diag, th, k) for k in range(2)]
+        ctx.eq("get_frac_diag_sum/value", _S(ctx, _el(sd)), _S(ctx, tot_diag), clause="get_frac_diag_sum value == sum_i I({i}) accumulated over the batches")
+        if getattr(sd_e, "op", None) == "sqrt":
+            ctx.eq("get_frac_diag_sum/err2", _S(ctx, sd_e.args[0]), _S(ctx, quad(V2, dsd)), clause="its error^2 == g^T V g with g = d(sum_i I_i)/d theta and the attached covariance")
+        else:
+            ctx.holds("get_frac_diag_sum/err2", ctx.tf.constant(False), clause="its error is a square root")
         # the SAME object integrated a second time (other batch size, other sample, changed couplings): `integral` starts from empty tables
         orig_split = ff.data_split
         ff.data_split = lambda data, batch: [{"batch": b, "weight": 1.0} for b in range(n_batch)]
@@ -206,7 +259,8 @@ def _mk_class(R, n_batch):
 
 for _R, _nb in ((2, 1), (2, 2), (3, 2), (2, 3)):
     group(["C03", "C09"], "fitfractions.FitFractions/R=%d/batches=%d" % (_R, _nb), ["fitfractions:FitFractions.append_int", "fitfractions:FitFractions.get_frac_grad",
-                                                                               "fitfractions:FitFractions.init_res_table"], no_native=True, cost=2 * _R * _nb,
+                                                                               "fitfractions:FitFractions.init_res_table", "fitfractions:FitFractions.get_frac",
+                                                                               "fitfractions:FitFractions.__iter__", "fitfractions:FitFractions.get_frac_diag_sum"], no_native=True, cost=2 * _R * _nb,
           bound="R = %d resonances (one chain each), %d integration batches" % (_R, _nb),
           assumes=["A-AD: eval_integral returns the integral of the currently selected resonances over ONE batch and its exact gradient",
                    "the per-batch integral is the quadratic form I_b(S) = sum_{k,l in S} G^b_kl with symmetric G"])(_mk_class(_R, _nb))
